@@ -135,6 +135,17 @@ def run(check: Check) -> None:
     for syms, ii, fl, v, d in deep_bad[:10]:
         check.violation(f"{v}::{' '.join(syms)}", f"{v}: formula {' '.join(syms)!r} (include_intercept={ii}, flags={list(fl)}): {d}",
                         {"kind": "c01_stream", "symbols": syms, "ii": ii, "flags": list(fl)})
+    for i, qa, y, z in itertools.product(range(40), range(len(ch_c01.QUOTED_ATOMS)), range(3), range(3)):
+        ch_c01.__dict__["__SHARD__"] = i
+        nn += 1
+        try:
+            okq = ch_c01.quoted_atom(i, qa, y, z)
+        except Exception:
+            okq = False
+        if okq is not True:
+            call = {"args": [i, qa, y, z], "kwargs": {}}
+            check.violation(f"quoted-atom::{ch_c01.QUOTED_ATOMS[qa]}", ch_c01.explain("quoted_atom", call), {"kind": "ch_native", "module": "ch_c01", "function": "quoted_atom", "call": call, "globals": {"__SHARD__": i}})
+            break
     check.obligation("streams/native cross-validation (K<=3)", "ground", nn - len(bad))
     for syms, v, d in bad[:20]:
         key = f"{v}::{' '.join(pc.SIGMA[i] for i in syms)}"
@@ -144,6 +155,7 @@ def run(check: Check) -> None:
         "shunting": [None], "shunting_paren": [None],
         "signrun": [{"SHARD": c, "N": (5 if thorough else 3)} for c in range(8)],
         "identity": list(range(40)), "forms": [None], "sides": list(range(10)),
+        "quoted_atom": list(range(40)) if thorough else [0, 1, 3, 8, 12, 23, 26, 27, 29, 37],
         "stream1": list(range(16)), "stream2": list(range(16)),
         "stream3": list(range(19)),
     }
